@@ -94,7 +94,22 @@ impl Universe {
 
 /// Iterate this shard's share of the universe. Quick: for every language all (script, region)
 /// pairs that occur with that language or with `und` in CLDR + a 1/`stride` sample of the rest.
-pub fn for_triples(ctx: &mut Ctx, u: &Universe, lk: &Likely, f: &mut dyn FnMut(&mut Ctx, &str, Option<&str>, Option<&str>)) {
+pub fn for_triples(ctx: &mut Ctx, u: &Universe, lk: &Likely, f0: &mut dyn FnMut(&mut Ctx, &str, Option<&str>, Option<&str>)) {
+    // every triple is a monitored case of its own: the CPU-time watchdog is armed with the triple as the
+    // witness, so a query that never returns ends this worker after 20 CPU-seconds (C01: violation; the
+    // other properties: inconclusive) instead of spinning until the wall-clock limit
+    let mut desc: Vec<u8> = Vec::with_capacity(32);
+    let mut wrapped = |ctx: &mut Ctx, l: &str, s: Option<&str>, r: Option<&str>| {
+        desc.clear();
+        desc.extend_from_slice(l.as_bytes());
+        for x in [s, r].into_iter().flatten() {
+            desc.push(b'-');
+            desc.extend_from_slice(x.as_bytes());
+        }
+        crate::mon::begin_case(&desc);
+        f0(ctx, l, s, r);
+    };
+    let f: &mut dyn FnMut(&mut Ctx, &str, Option<&str>, Option<&str>) = &mut wrapped;
     let quick = ctx.quick();
     let (shard, n) = (ctx.shard, ctx.nshards);
     let mut related: std::collections::HashMap<&str, Vec<(Option<&str>, Option<&str>)>> = std::collections::HashMap::new();
